@@ -305,6 +305,13 @@ def Settings.apply (s : Settings) : RouteOpt → Settings
   | .priority => { s with priority := true }
   | .sse => { s with sse := true, timeout := 0 }
 
+/-- `validateSecret`: `WithJwt(secret)` / `WithJwtTransition(secret, prev)` panic when `len(secret) < 8` (bytes; the
+previous secret is not validated).  The panic leaves `AddRoutes` before `engine.addRoutes`: nothing is registered. -/
+def RouteOpt.panics : RouteOpt → Bool
+  | .jwt s => s.utf8ByteSize < 8
+  | .jwtTransition s _ => s.utf8ByteSize < 8
+  | _ => false
+
 /-- what `WithPrefix(g)` makes of one route: `Route{Method: rt.Method, Path: path.Join(g, rt.Path), Handler: rt.Handler}`. -/
 def prefixReg (g : String) (r : Reg) : Reg := (r.1, joinGo g r.2.1, r.2.2)
 
@@ -377,6 +384,15 @@ def Api.step (a : Api) : ApiOp → Api
     let r0 : RoutesRef := if k < a.heap.length then .caller k else .own []
     { a with frs := a.frs ++ [opts.foldl (aApply a.heap) (r0, {})] }
   | .addOne r opts => { a with frs := a.frs ++ [opts.foldl (aApply a.heap) (.own [r], {})] }
+
+/-- the call panics inside one of its options (`validateSecret`) — before `engine.addRoutes`. -/
+def ApiOp.panics : ApiOp → Bool
+  | .slice _ => false
+  | .add _ opts => opts.any RouteOpt.panics
+  | .addOne _ opts => opts.any RouteOpt.panics
+
+/-- one API call, panics included: a panicking call leaves the server as it was. -/
+def Api.stepChecked (a : Api) (op : ApiOp) : Api := if op.panics then a else a.step op
 
 /-- the group a reference denotes now. -/
 def resolve (heap : List (List Reg)) (f : RoutesRef × Settings) : Featured := { routes := deref heap f.1, set := f.2 }
